@@ -182,8 +182,10 @@ CLASSES["Instantiator"].methods["normalize"] = _inst_normalize
 def _inst_glyph_names(ex, st, self):
     """Instantiator.glyph_names = self.default_source_glyphs.keys() (one-line property): the keys of the default layer, in the dict's order.
     Modelled as the LIST of keys (iteration order and membership are all the callers use)."""
+    from pyvc import models
+
     d = ex.read_field(st, c19b._inst_default_glyphs(ex, st, self), "glyphs")
-    return Val(List(STR), d.ty.sort().keys(lift(d)))
+    return models.BUILTIN_MODELS["builtins.list"].model(ex, st, [d], {}, None)  # (list(d): the engine adds what it knows of a dict's key list)
 
 
 CLASSES["Instantiator"].derived["glyph_names"] = _inst_glyph_names
@@ -239,4 +241,88 @@ contract(
             "present": "all(s[0] in glyphNames for s in swaps)",
         }),
     },
+)
+
+
+# =====================================================================================================
+# generate_glyph_instance WITHOUT an output glyph: a new glyph object from the default source's glyph class (glyph_factory / new_glyph)
+# =====================================================================================================
+from pyvc import models as _models
+
+# ---- Layer: len() and .values() (the default layer is asked for "any glyph" when a new glyph object is needed) -----------------------
+def _layer_values(ex, st, self, args, kwargs, node):
+    return _models.value_method(ex, st, ex.read_field(st, self, "glyphs"), "values", [], {}, node)
+
+CLASSES["Layer"].methods["values"] = _layer_values
+CLASSES["Layer"].length = lambda ex, st, v: Val(INT, z3.Length(Dict(STR, Ref("SrcGlyph")).sort().keys(lift(ex.read_field(st, v, "glyphs")))))
+
+def _out_factory_call(ex, st, self, args, kwargs, node):
+    """factory(name=..): a NEW empty glyph object carrying that name (no unicodes yet)"""
+    if args or set(kwargs) != {"name"}:
+        raise Unsupported("glyph factory arguments", node)
+    g = ex.new_object(st, "OutGlyph")
+    ex.write_field(st, g, "name", kwargs["name"], node)
+    ex.write_field(st, g, "unicodes", Val(List(INT), z3.Empty(List(INT).sort())), node)
+    return g
+
+_out_factory_call.modifies = []
+cls("OutFactory", methods={"__call__": _out_factory_call}, notes="closure returned by util._getNewGlyphFactory(glyph): factory(name=..) makes a new EMPTY glyph of that name")
+trusted("c19.getNewGlyphFactoryOut", "util._getNewGlyphFactory(glyph): a factory of new empty glyphs of the same class (assumed; the argument is only inspected for its class)")(
+    lambda ex, st, args, kwargs, node: ex.new_object(st, "OutFactory"))
+
+contract(
+    "ufo2ft.instantiator:Instantiator.glyph_factory",
+    props=["C19"],
+    params={"self": Ref("Instantiator")},
+    returns=Ref("OutFactory"),
+    requires=[c19b._GGI_REQUIRES[0]],
+    raises={"InstantiatorError": "len(self.default_source_glyphs) == 0"},  # a default source without glyphs has no glyph object to take the class from
+    ensures={"a-factory": "allocated(result)"},
+    canaries={"never": "False"},
+    globals={"_getNewGlyphFactory": c19b._ref("c19.getNewGlyphFactoryOut")},
+)
+contract(
+    "ufo2ft.instantiator:Instantiator.new_glyph",
+    props=["C19"],
+    params={"self": Ref("Instantiator"), "name": STR},
+    returns=Ref("OutGlyph"),
+    requires=[c19b._GGI_REQUIRES[0]],
+    raises={"InstantiatorError": "len(self.default_source_glyphs) == 0"},
+    ensures={"new-empty-glyph": "fresh(result) and result.name == name and len(result.unicodes) == 0"},
+    canaries={"unnamed": "result.name == ''"},
+)
+contract(
+    "ufo2ft.instantiator:Instantiator.generate_glyph_instance",
+    name="new",
+    props=["C19"],
+    params={"self": Ref("Instantiator"), "glyph_name": STR, "normalized_location": Ref("Location")},
+    returns=Ref("OutGlyph"),
+    requires=c19b._GGI_REQUIRES,
+    # (the second disjunct: a default source without any glyph has no glyph object to take the class of the new glyph from)
+    raises={"InstantiatorError": f"(glyph_name not in self.cached and not has_glyph({c19b._L}, {c19b._IDX}, glyph_name)) or len(self.default_source_glyphs) == 0"},
+    ensures={**c19b._GGI_ENSURES, "a-new-glyph": "fresh(result) and result.name == glyph_name"},
+    canaries=CONTRACTS["ufo2ft.instantiator:Instantiator.generate_glyph_instance#into"].canaries,
+    modifies=["self.glyph_mutators"],
+    globals={**c19b._ACCESSORS},
+    merge_branches=False,
+    hints=CONTRACTS["ufo2ft.instantiator:Instantiator.generate_glyph_instance#into"].hints,
+)
+
+
+def _ggn_build(d):
+    ds, inst, at = c19b.rt_instantiator(d)
+    return {"self": inst, "glyph_name": d["glyph"], "normalized_location": at}
+
+
+def _nf_build(d):
+    ds, inst, at = c19b.rt_instantiator(d)
+    return {"self": inst, "name": d["glyph"]}
+
+
+CONTRACTS["ufo2ft.instantiator:Instantiator.generate_glyph_instance#new"].runtime = Runtime(
+    c19b._ggi_cases, _ggn_build, call=lambda fn, a: fn(a["self"], a["glyph_name"], a["normalized_location"])
+)
+CONTRACTS["ufo2ft.instantiator:Instantiator.new_glyph"].runtime = Runtime(c19b._ggi_cases, _nf_build)
+CONTRACTS["ufo2ft.instantiator:Instantiator.glyph_factory"].runtime = Runtime(
+    c19b._ggi_cases, lambda d: {"self": c19b.rt_instantiator(d)[1]}, call=lambda fn, a: fn.func(a["self"])
 )
